@@ -190,13 +190,13 @@ def facts_vhdx(rng):
 
 def facts_vmdk(rng):
     from dissect.hypervisor.disk.vmdk import VMDK, DiskDescriptor
-    names = [rng.choice(["disk-s001.vmdk", "my disk (2)-s001.vmdk", "dïsk ✓ 😀.vmdk", "a b c d e.vmdk", 'we"ird.vmdk'.replace('"', "'")]) for _ in range(rng.choice([1, 2, 3]))]
+    names = [rng.choice(["disk-s001.vmdk", "my disk (2)-s001.vmdk", "dïsk ✓ 😀.vmdk", "a b c d e.vmdk", "data disk #2-flat.vmdk", "x=y;z.vmdk", 'we"ird.vmdk'.replace('"', "'")]) for _ in range(rng.choice([1, 2, 3]))]
     types = [rng.choice(["SPARSE", "FLAT", "VMFS", "VMFSSPARSE", "SESPARSE"]) for _ in names]
     secs = [rng.choice([1, 8, 4192256, 2 ** 33 + 5]) for _ in names]
     modes = [rng.choice(["RW", "RDONLY", "NOACCESS"]) for _ in names]
     lines = [f'{m} {s} {t} "{n}"' + (" 0" if t == "FLAT" else "") for m, s, t, n in zip(modes, secs, types, names)]
     ddb = {"ddb.adapterType": rng.choice(["ide", "lsilogic"]), "ddb.geometry.cylinders": str(rng.randrange(1, 99999)), "ddb.longContentID": "%032x" % rng.getrandbits(128),
-           "ddb.comment": rng.choice(["plain", "two words", "ünï ✓"])}
+           "ddb.comment": rng.choice(["plain", "two words", "ünï ✓", "disk #3 of 4", "a=b"])}
     cid = "%08x" % rng.getrandbits(32)
     ctype = rng.choice(["monolithicSparse", "twoGbMaxExtentSparse", "vmfs", "seSparse"])
     text = enc_vmdk.descriptor_text(lines, cid=cid, create_type=ctype, ddb=ddb, extra={"encoding": '"UTF-8"'})
